@@ -50,8 +50,12 @@ Proof.
   destruct Hin as [[= <- <- <-]|[]]. split; [exact Eb|]. exists c. auto.
 Qed.
 
-Lemma step2_In ms r e : In e (step2 ms r) <-> In e r /\ consistent ms r (snd (fst e)) (snd e) = true.
-Proof. unfold step2. rewrite filter_In. destruct e as [[n old] s]. reflexivity. Qed.
+Lemma step2_In ms r e :
+  In e (step2 ms r) <-> In e r /\ consistent ms r (snd (fst e)) (snd e) = true /\ ~ In (snd (fst e)) BUILTINS.
+Proof.
+  unfold step2. rewrite filter_In. destruct e as [[n old] s]. cbn [fst snd].
+  rewrite andb_true_iff, negb_true_iff, mem_false_not_In. tauto.
+Qed.
 
 Lemma emit_In pres r2 n old s :
   In (n, old, s) (emit pres r2) <->
@@ -69,7 +73,7 @@ Qed.
 Lemma decide_In imp dfn ms cs pres n old s :
   In (n, old, s) (decide imp dfn ms cs pres) <->
   let r1 := step1 (blacklist imp dfn ms) cs in
-  In (n, old, s) r1 /\ consistent ms r1 old s = true
+  In (n, old, s) r1 /\ consistent ms r1 old s = true /\ ~ In old BUILTINS
   /\ group_ok (step2 ms r1) s = true /\ old <> s /\ ~ In old pres.
 Proof.
   unfold decide. rewrite emit_In, step2_In. cbn [fst snd]. tauto.
@@ -104,10 +108,10 @@ Qed.
 Theorem decide_injective imp dfn ms cs pres n1 old1 n2 old2 s :
   In (n1, old1, s) (decide imp dfn ms cs pres) -> In (n2, old2, s) (decide imp dfn ms cs pres) -> old1 = old2.
 Proof.
-  intros H1 H2. apply decide_In in H1 as (A1 & C1 & G & _). apply decide_In in H2 as (A2 & C2 & _).
+  intros H1 H2. apply decide_In in H1 as (A1 & C1 & B1 & G & _). apply decide_In in H2 as (A2 & C2 & B2 & _).
   cbv zeta in *.
-  assert (I1 : In (n1, old1, s) (step2 ms (step1 (blacklist imp dfn ms) cs))) by (apply step2_In; now split).
-  assert (I2 : In (n2, old2, s) (step2 ms (step1 (blacklist imp dfn ms) cs))) by (apply step2_In; now split).
+  assert (I1 : In (n1, old1, s) (step2 ms (step1 (blacklist imp dfn ms) cs))) by (apply step2_In; cbn [fst snd]; tauto).
+  assert (I2 : In (n2, old2, s) (step2 ms (step1 (blacklist imp dfn ms) cs))) by (apply step2_In; cbn [fst snd]; tauto).
   exact (group_ok_same _ _ _ _ G I1 I2 eq_refl eq_refl).
 Qed.
 
@@ -183,8 +187,8 @@ Section Decision.
   Theorem decide_consistent n' x s m :
     In (n', x, s) E -> In m ms -> m_name m = x -> exists n, m_node m = Some n /\ In (n, x, s) E.
   Proof.
-    intros HE Hm Hx. pose proof HE as HE'. apply decide_In in HE' as (Hin & Hc & Hg & Hne & Hp).
-    fold r1 in Hin, Hc, Hg.
+    intros HE Hm Hx. pose proof HE as HE'. apply decide_In in HE' as (Hin & Hc & Hbi & Hg & Hne & Hp).
+    fold r1 in Hin, Hc, Hg. pose proof Hc as Hc0.
     unfold consistent in Hc. rewrite forallb_forall in Hc. specialize (Hc _ Hm).
     assert (Ex : text_eqb (m_name m) x = true) by now apply text_eqb_eq. rewrite Ex in Hc.
     apply text_eqb_eq in Hc. unfold mention_sub in Hc.
@@ -193,9 +197,6 @@ Section Decision.
     destruct (lookup_Some _ _ _ El) as [old Hold]. exists n. split; [reflexivity|].
     assert (old = x) by (rewrite <- Hx; exact (r1_old _ _ _ _ Hm En Hold)). subst old.
     apply decide_In. fold r1. repeat split; try assumption.
-    unfold consistent. apply forallb_forall. intros m2 Hm2.
-    pose proof (proj1 (forallb_forall _ _) (proj1 (proj2 (proj1 (decide_In _ _ _ _ _ _ _ _) HE))) m2 Hm2) as H2.
-    exact H2.
   Qed.
 
   Lemma mention_sub_changed m v :
@@ -424,7 +425,8 @@ Proof.
   exact (decide_alpha (imported m) (defined_names m) (mentions m) (group_events (all_events pres m)) pres (align_wf pres m Hwf) m1 m2).
 Qed.
 
-Theorem align_respects_preserve pres m n old s : In (n, old, s) (align pres m) -> ~ In old pres /\ old <> s.
+Theorem align_respects_preserve pres m n old s :
+  In (n, old, s) (align pres m) -> ~ In old pres /\ ~ In old BUILTINS /\ old <> s.
 Proof.
   unfold align. intros H.
   apply (decide_In (imported m) (defined_names m) (mentions m) (group_events (all_events pres m)) pres n old s) in H. tauto.
